@@ -51,6 +51,10 @@ func printable(b byte) byte {
 	return b
 }
 
+// Record appends an event on behalf of another handler implementation (the
+// DirHandler wrapper of the fbbsim engine shares the history format).
+func (h *History) Record(e Event) { h.add(e) }
+
 func (h *History) Snapshot() []Event {
 	h.mu.Lock()
 	defer h.mu.Unlock()
